@@ -57,6 +57,7 @@ func clientEngine(prop string, gen func(*core.Rng) *KPlan, race bool) *core.Engi
 		ProbeNames:      kProbeNames,
 		FaultNames:      kFaultNames,
 		RaceIsViolation: race,
+		Relevant:        func(n string) bool { return clientRelevant[prop][n] },
 		NontrivialRule: "a run is non-trivial when the kernel saw >= 2 requests (C16: >= 2 operations, C18: >= 2 operations or tasks); distinct = distinct hash of " +
 			"every call with its result, the number of datagrams the kernel saw and the receives it served, plus the concurrent phase's total-order history",
 		Components: map[string][]string{
@@ -156,4 +157,34 @@ func init() {
 		len(pProbeNames) != nPProbes || len(pFaultNames) != nPFaults {
 		panic("probe/fault name tables out of sync")
 	}
+}
+
+func set(names ...string) map[string]bool {
+	m := map[string]bool{}
+	for _, n := range names {
+		m[n] = true
+	}
+	return m
+}
+
+// clientRelevant lists, per property, the probes and fault kinds of the
+// client engine that its scenario can reach (the others are omitted from the
+// evidence instead of being shown as zeros).
+var clientRelevant = map[string]map[string]bool{
+	"C08": set("unsolicited_record_skipped_inside_call", "eagain_x9_then_success", "eintr_run_inside_call", "kernel_errno_reported",
+		"semantic_errno_from_kernel_state", "stale_reply_refused", "call_judged_in_relaxed_mode", "reply_delayed_exactly_450ms", "getrules_with_2plus_rules",
+		"deleterules_stopped_at_failure", "event_between_ack_and_data", "getrules_buffer_overwritten_later", "sendto_failed", "kernel_immutable",
+		"getstatus_result_checked_again_at_end",
+		"injected_errno", "unsolicited_records", "stale_reply", "delayed_reply", "recv_eintr", "recv_eagain_injected", "recv_eagain_natural", "sendto_errno"),
+	"C16": set("status_reply_shorter_than_32", "status_reply_longer_than_44", "fromwire_short_buffer", "fromwire_partial_word",
+		"unsolicited_record_skipped_inside_call", "kernel_immutable", "getstatus_result_checked_again_at_end", "event_between_ack_and_data",
+		"unsolicited_records", "truncated_or_padded_reply"),
+	"C17": set("nowait_request_sent", "waitacks_stopped_at_first_error", "waitacks_with_nothing_pending", "waitacks_called_again_after_error", "repeated_close_was_noop",
+		"second_close_blocked_in_once", "close_cleared_pid", "getrules_with_2plus_rules", "getrules_buffer_overwritten_later", "unsolicited_record_skipped_inside_call",
+		"eagain_x9_then_success", "eintr_run_inside_call", "kernel_errno_reported", "semantic_errno_from_kernel_state", "sendto_failed", "kernel_immutable",
+		"event_between_ack_and_data", "getstatus_result_checked_again_at_end",
+		"injected_errno", "unsolicited_records", "recv_eintr", "recv_eagain_injected", "sendto_errno", "concurrent_close_tasks"),
+	"C18": set("porcupine_histories_checked", "receive_foreign_port_id", "receive_foreign_port_id_with_group_mask", "receive_foreign_port_id_2^31_or_more",
+		"receive_non_netlink_address", "receive_short_datagram", "short_after_long_datagram", "send_payload_8970", "send_with_caller_pid", "sends_overlapped_in_time",
+		"sendto_failed", "receive_on_two_independent_clients_in_tasks", "sendto_errno", "concurrent_send_tasks"),
 }
